@@ -928,8 +928,10 @@ Proof.
   injection Hr1 as Hk1 _. injection Hr2 as Hk2 _.
   destruct (hist_monotone_in_bounds mode ops1 rev lo hi ops2) as [Hsort Hin].
   unfold hist_trace in Hsort, Hin. fold st1 j in Hsort, Hin. rewrite Htr in Hsort, Hin.
-  assert (Ey : yields (t1 ++ (m1, a1, Some y1) :: t2 ++ (m2, a2, Some y2) :: t3)
-               = yields t1 ++ y1 :: yields t2 ++ y2 :: yields t3).
+  match type of Hin with
+  | Forall _ (yields ?l) =>
+      assert (Ey : yields l = yields t1 ++ y1 :: yields t2 ++ y2 :: yields t3)
+  end.
   { unfold yields. rewrite flat_map_app. simpl. rewrite flat_map_app. reflexivity. }
   rewrite Ey in Hsort, Hin.
   apply StronglySorted_mid in Hsort.
@@ -938,3 +940,133 @@ Proof.
   apply Forall_app in Hin2. destruct Hin2 as [_ Hin2]. apply Forall_inv in Hin2.
   rewrite Hk1 in Hsort, Hy1. rewrite Hk2 in Hsort, Hin2. auto.
 Qed.
+
+(* ====================================================================================== *)
+(* 5. non-vacuity: a concrete history with a forward and a reverse iterator interleaved     *)
+(*    with TPut / TDel                                                                      *)
+(* ====================================================================================== *)
+
+Definition ex_ops1 : list top := [TPut 1 10; TPut 3 30; TPut 5 50].
+Definition ex_ops2 : list top :=
+  [TPut 4 40; TIterNext 1; TDel 3; TIterNext 0; TIterNext 1; TPut 2 20; TIterNext 1;
+   TPut 5 55; TIterNext 0; TIterNext 0; TPut 9 90; TIterNext 0; TIterNext 1; TIterNext 7].
+(* what follows the creation of iterator 0 (forward, unbounded) ... *)
+Definition ex_rest0 : list top := TIterNext 0 :: TIterNew true (BInc 1) (BExc 5) :: ex_ops2.
+(* ... and what precedes the creation of iterator 1 (reverse over [1, 5)) *)
+Definition ex_pre1 : list top := ex_ops1 ++ [TIterNew false BUnb BUnb; TIterNext 0].
+Definition ex_ops : list top := ex_ops1 ++ TIterNew false BUnb BUnb :: ex_rest0.
+
+Example ex_ops_split1 : ex_ops = ex_pre1 ++ TIterNew true (BInc 1) (BExc 5) :: ex_ops2.
+Proof. reflexivity. Qed.
+
+Example ex_run :
+  run_S 0 ex_ops =
+  [OUnit; OUnit; OUnit; OUnit; OPair 1 10; OUnit; OUnit; OPair 3 30; OUnit; OPair 4 40;
+   OPair 1 10; OUnit; OEnd; OUnit; OPair 5 55; OEnd; OUnit; OEnd; OEnd; OBad].
+Proof. vm_compute. reflexivity. Qed.
+
+Definition ex_tr0 : list zentry := hist_trace 0 ex_ops1 false BUnb BUnb ex_rest0.
+Definition ex_tr1 : list zentry := hist_trace 0 ex_pre1 true (BInc 1) (BExc 5) ex_ops2.
+
+(* iterator 0 (forward): 3 is deleted before it is reached, 4 is inserted ahead and yielded,
+   5 is yielded with its current value 55, 2 is inserted behind and not yielded; the end is sticky
+   although 9 is inserted afterwards *)
+Example ex_trace0 :
+  count_new ex_ops1 = 0%nat
+  /\ map entry_out ex_tr0 = [OPair 1 10; OPair 4 40; OPair 5 55; OEnd; OEnd]
+  /\ iter_outs 0 ex_rest0 (skipn 4 (run_S 0 ex_ops)) = map entry_out ex_tr0
+  /\ map (@e_map Z Z) ex_tr0 =
+     [[(1, 10); (3, 30); (5, 50)]; [(1, 10); (4, 40); (5, 50)];
+      [(1, 10); (2, 20); (4, 40); (5, 55)]; [(1, 10); (2, 20); (4, 40); (5, 55)];
+      [(1, 10); (2, 20); (4, 40); (5, 55); (9, 90)]]
+  /\ map (fun e : zentry => ai_pos (e_it e)) ex_tr0 = [Some 1; Some 3; Some 5; None; None]
+  /\ yields ex_tr0 = [(1, 10); (4, 40); (5, 55)]
+  /\ rounds_S 0 ex_rest0 [] = [[]; [MPut 4 40; MDel 3]; [MPut 2 20; MPut 5 55]; []; [MPut 9 90]].
+Proof. vm_compute. repeat split; reflexivity. Qed.
+
+(* iterator 1 (reverse over [1, 5)): created when the map is {1,3,5}: starts at 3; 4 is inserted
+   behind it (not yielded); after 3 it goes to 1; 2 is inserted behind; then the end *)
+Example ex_trace1 :
+  count_new ex_pre1 = 1%nat
+  /\ map entry_out ex_tr1 = [OPair 3 30; OPair 1 10; OEnd; OEnd]
+  /\ iter_outs 1 ex_ops2 (skipn 6 (run_S 0 ex_ops)) = map entry_out ex_tr1
+  /\ map (fun e : zentry => ai_pos (e_it e)) ex_tr1 = [Some 3; Some 1; None; None]
+  /\ yields ex_tr1 = [(3, 30); (1, 10)].
+Proof. vm_compute. repeat split; reflexivity. Qed.
+
+Definition ex_dflt : zentry := ([], mkAIter false None BUnb BUnb false, None).
+
+(* the hypotheses of hist_no_skip are satisfiable: key 1 persists and lies before the yield 4 *)
+Example ex_no_skip :
+  exists e, In e (firstn 1 ex_tr0) /\ hits (mode_cmp 0) 1 e.
+Proof.
+  apply (hist_no_skip 0 ex_ops1 false BUnb BUnb ex_rest0 1 (firstn 1 ex_tr0)
+           (e_map (nth 1 ex_tr0 ex_dflt)) (e_it (nth 1 ex_tr0 ex_dflt)) (4, 40) (skipn 2 ex_tr0)).
+  - vm_compute. reflexivity.
+  - vm_compute. reflexivity.
+  - exists (1, 10). split; [vm_compute; auto 10|reflexivity].
+  - vm_compute. constructor; [|constructor].
+    exists (1, 10). split; [simpl; auto 10|reflexivity].
+  - exists (1, 10). split; [vm_compute; auto 10|reflexivity].
+  - vm_compute. reflexivity.
+Qed.
+
+(* the hypotheses of hist_inserted_beyond are satisfiable: enter at the second Next call of
+   iterator 0 (pending position 3); key 4 has been inserted beyond it and stays; the iterator
+   yields it before it reports the end *)
+Example ex_inserted_beyond :
+  exists e, In e (firstn 2 (skipn 1 ex_tr0)) /\ hits (mode_cmp 0) 4 e.
+Proof.
+  apply (hist_inserted_beyond 0 ex_ops1 false BUnb BUnb ex_rest0 4 3
+           (firstn 1 ex_tr0) (firstn 2 (skipn 1 ex_tr0))
+           (e_map (nth 3 ex_tr0 ex_dflt)) (e_it (nth 3 ex_tr0 ex_dflt)) (skipn 4 ex_tr0)
+           (nth 1 ex_tr0 ex_dflt)).
+  - vm_compute. reflexivity.
+  - vm_compute. reflexivity.
+  - vm_compute. reflexivity.
+  - vm_compute. reflexivity.
+  - vm_compute. discriminate.
+  - vm_compute. reflexivity.
+  - vm_compute.
+    repeat (constructor; [exists (4, 40); split; [simpl; auto 10|reflexivity]|]).
+    constructor.
+Qed.
+
+Example ex_run_S_sticky_end : nth_error (run_S 0 ex_ops) 17 = Some OEnd.
+Proof.
+  apply (run_S_sticky_end 0 ex_ops 0 15 17); [lia|reflexivity|reflexivity|].
+  vm_compute. reflexivity.
+Qed.
+
+Example ex_run_S_monotone :
+  dcmp (mode_cmp 0) false 4 5 = Lt
+  /\ in_range Z (mode_cmp 0) BUnb BUnb 4 = true /\ in_range Z (mode_cmp 0) BUnb BUnb 5 = true.
+Proof.
+  apply (run_S_monotone 0 ex_ops1 false BUnb BUnb ex_rest0 9 14 4 40 5 55);
+    [lia|reflexivity|reflexivity|vm_compute; reflexivity|vm_compute; reflexivity].
+Qed.
+
+(* a less-based coarse mode (4: keys compared by k/4) runs too: 2 is equivalent to the stored
+   key 1 and only replaces its value; 5 is inserted behind the pending position 1 of the reverse
+   iterator and is not yielded *)
+Example ex_run_mode4 :
+  run_S 4 [TPut 1 10; TPut 9 90; TPut 2 20; TIterNew true BUnb BUnb; TIterNext 0; TPut 5 50;
+           TIterNext 0; TIterNext 0; TIterNext 0]
+  = [OUnit; OUnit; OUnit; OUnit; OPair 9 90; OUnit; OPair 1 20; OEnd; OEnd].
+Proof. vm_compute. reflexivity. Qed.
+
+Print Assumptions mode_cmp_laws.
+Print Assumptions steps_S_sorted.
+Print Assumptions trace_S_outs.
+Print Assumptions trace_S_rounds.
+Print Assumptions steps_S_new_iter.
+Print Assumptions hist_trace_outs.
+Print Assumptions hist_trace_moment.
+Print Assumptions hist_monotone_in_bounds.
+Print Assumptions hist_present_current_value.
+Print Assumptions hist_sticky_end.
+Print Assumptions hist_no_skip.
+Print Assumptions hist_inserted_beyond.
+Print Assumptions hist_inserted_beyond_next_yield.
+Print Assumptions run_S_sticky_end.
+Print Assumptions run_S_monotone.
